@@ -28,10 +28,12 @@ Record c14_case := {
   c_tols : fvec;
   c_table : list (fvec * fvec * fvec * bool);      (* vector, costs, signed costs (numbers), flag *)
   c_batches : list (list fvec);
-  c_again : list (list nat) }.                     (* per batch: designs created earlier (by creation index
+  c_again : list (list nat);                     (* per batch: designs created earlier (by creation index
                                                       among the submitted designs) that are handed to evaluate()
                                                       once more, after the new ones; all empty = the runs the
                                                       theorems are about *)
+  c_pre : list (list bool) }.                      (* per batch, per new design: already evaluated by a plain
+                                                      Evaluator before it is submitted (false / missing = EMPTY) *)
 
 Definition POISON : fvec := [nan; nan; nan; nan; nan; nan; nan].
 
@@ -99,16 +101,25 @@ Definition obs_of (r : st float * list (list nat)) : c14_obs :=
    of new cells followed by old ones *)
 Section Again.
   Variable ev : st float -> list nat -> option (st float).
+  Variable pre_eval : heap float * list fvec -> list nat -> heap float * list fvec.   (* a plain Evaluator.evaluate *)
+  Fixpoint pick {A : Type} (l : list A) (flags : list bool) : list A :=
+    match l, flags with
+    | x :: l', true :: f' => x :: pick l' f'
+    | _ :: l', _ :: f' => pick l' f'
+    | _, _ => []
+    end.
   Fixpoint again_batches (s : st float) (created : list nat) (bs : list (list fvec)) (ag : list (list nat))
-    : option (st float * list (list nat)) :=
+           (pre : list (list bool)) : option (st float * list (list nat)) :=
     match bs with
     | [] => Some (s, [])
     | b :: bs' =>
         let '(h1, ids) := new_designs float (s_heap _ s) b in
+        let '(h2, log2) := pre_eval (h1, s_log _ s) (pick ids (hd [] pre)) in
+        let s0 := {| s_heap := h2; s_inds := s_inds _ s; s_todo := s_todo _ s; s_log := log2; s_proc := s_proc _ s |} in
         let old := map (fun k => nth k created 0) (hd [] ag) in
-        match ev (with_heap float s h1) (ids ++ old) with
+        match ev s0 (ids ++ old) with
         | None => None
-        | Some s1 => match again_batches s1 (created ++ ids) bs' (tl ag) with
+        | Some s1 => match again_batches s1 (created ++ ids) bs' (tl ag) (tl pre) with
                      | None => None
                      | Some (s2, idss) => Some (s2, (ids ++ old) :: idss)
                      end
@@ -123,7 +134,8 @@ Definition c14_run (c : c14_case) : c14_obs :=
                          0%float 1%float (-1)%float psum (c_m c) (c_tols c) (tab_f t) (tab_sgn t) (tab_infeas t) in
   let ge := g_evaluate float PrimFloat.add PrimFloat.sub PrimFloat.div 0%float DELTA
                        (tab_f t) (tab_sgn t) (tab_infeas t) in
-  if forallb (fun l => match l with [] => true | _ => false end) (c_again c) then
+  if forallb (fun l => match l with [] => true | _ => false end) (c_again c) &&
+     forallb (forallb negb) (c_pre c) then
     if c_wc c then
       obs_of (wc_batches float PrimFloat.add PrimFloat.sub PrimFloat.mul PrimFloat.abs
                          0%float 1%float (-1)%float psum (c_m c) (c_tols c)
@@ -136,7 +148,8 @@ Definition c14_run (c : c14_case) : c14_obs :=
       end
   else
     match again_batches (if c_wc c then fun s ids => Some (wce s ids) else ge)
-                        (init float) [] (c_batches c) (c_again c) with
+                        (eval_serial float (tab_f t) (tab_sgn t) (tab_infeas t))
+                        (init float) [] (c_batches c) (c_again c) (c_pre c) with
     | Some r => obs_of r
     | None => None
     end.
